@@ -100,6 +100,13 @@ CHECKS = {
              'is replayed on the real OperationsManager with real XSD-valid messages; TLC judges that each result completes once with the final state and all report parts.',
         note='Trusted: scripted handlers; sequential replay is exact because OperationsManager handlers are atomic under its lock.',
         design_ref='6/C09'),
+    'C15': dict(
+        technique='TLA+ specs UdpRepeat.tla (reference retransmission schedule, every outcome of both random draws) and UdpRepeatLoop.tla (known-id memory) checked by TLC; every case executed on the real senders with stubbed random/time; judged by TLC (UdpRepeatTrace / UdpRepeatLoopTrace)',
+        text='TLC enumerates every outcome of the initial-delay and first-gap draws for the unicast and multicast parameter sets (read from the code), checks the laws of the '
+             'reference schedule, and emits the cases; each runs through the real _send_* / add_outbound_message paths of a real WSDiscovery + NetworkingThread (threads not started); '
+             'TLC judges count, initial delay, first gap, doubling with cap, own-id pre-registration and loop-back suppression.',
+        note='Trusted: stubs for the module globals random/time; observation at the send queue (the 10 ms raster of the send loop is not judged).',
+        design_ref='6/C15'),
 }
 
 NOT_YET = 'check not built yet in this round (see DESIGN.md section 10 build order); no claim made'
